@@ -19,7 +19,11 @@ def fresh(n):
 def apply_impl(nodes, op):
     k = op[0]
     if k == "attach":
-        nodes[op[1]].add_child(nodes[op[2]])
+        # plain append, or the same position given explicitly (the positional form of add_child): attaching is attaching
+        if (op[1] + op[2]) % 2:
+            nodes[op[1]].add_child(nodes[op[2]], index=len(nodes[op[1]].children))
+        else:
+            nodes[op[1]].add_child(nodes[op[2]])
     elif k == "declare":
         nodes[op[1]].add_namespace(op[2], op[3])
     elif k == "remove":
